@@ -98,7 +98,7 @@ impl Check for C12 {
             for pi in 0..np {
                 let hp = &d.w.nodes[0].ports[pi];
                 let st = hp.state();
-                let key = format!("variant=silence start={:?} p2p={} master_only={}", start_states[pi], hp.spec.p2p, hp.spec.master_only);
+                let key = format!("variant=silence start={:?} p2p={} master_only={} receipt_timer_armed={}", start_states[pi], hp.spec.p2p, hp.spec.master_only, hp.armed(T_RECEIPT));
                 if st == PState::Faulty || start_states[pi] == PState::Faulty {
                     d.w.out.probe("phase2.faulty_port_excepted");
                     continue;
